@@ -29,7 +29,7 @@ func newScratch() *Scratch {
 	}
 	return &Scratch{Dir: d}
 }
-func (s *Scratch) Close() { _ = os.RemoveAll(s.Dir) }
+func (s *Scratch) Close()                  { _ = os.RemoveAll(s.Dir) }
 func (s *Scratch) Path(name string) string { return filepath.Join(s.Dir, name) }
 
 // csvCell renders one cell: nil = NULL (unquoted empty field); everything else is quoted so that the
@@ -117,6 +117,20 @@ func selectView(tx *query.Transaction, sql string) (*query.View, error) {
 	return query.Select(context.Background(), scope, sq)
 }
 
+// selectViewIn runs one SELECT in an existing scope (temporary tables, variables and cursors of a
+// Processor live in its scope)
+func selectViewIn(scope *query.ReferenceScope, sql string) (*query.View, error) {
+	stmts, _, err := parser.Parse(sql, "", false, scope.Tx.Flags.AnsiQuotes)
+	if err != nil {
+		return nil, err
+	}
+	sq, ok := stmts[0].(parser.SelectQuery)
+	if !ok || len(stmts) != 1 {
+		return nil, fmt.Errorf("harness: not a single select query")
+	}
+	return query.Select(context.Background(), scope, sq)
+}
+
 func viewRows(v *query.View) [][]value.Primary {
 	rows := make([][]value.Primary, len(v.RecordSet))
 	for i, rec := range v.RecordSet {
@@ -193,7 +207,9 @@ func runCmd(dir string, argv []string, stdin string, timeout time.Duration, extr
 	cmd := exec.CommandContext(ctx, "/bin/sh", append([]string{"-c", script, "sh"}, argv...)...)
 	cmd.Dir = dir
 	cmd.Env = append([]string{"HOME=" + dir, "PATH=/usr/bin:/bin", "TZ=UTC", "LANG=C"}, extraEnv...)
-	cmd.Stdin = strings.NewReader(stdin)
+	if stdin != "" { // an (empty) pipe makes csvq read FROM-less queries from stdin; none = /dev/null
+		cmd.Stdin = strings.NewReader(stdin)
+	}
 	cmd.SysProcAttr = &syscall.SysProcAttr{Setpgid: true}
 	var so, se bytes.Buffer
 	cmd.Stdout, cmd.Stderr = &so, &se
